@@ -103,12 +103,20 @@ Proof.
 Qed.
 
 (* ------------------------------------------------------------------ C15_features and derived containers *)
-Lemma features_wf_thm : forall m o, wf_f m = true ->
+Lemma features_wfF_thm : forall m o, wfF m ->
   NoDup (feature_edges m o)
   /\ (forall e, In e (feature_edges m o) -> 0 <= e < Z.of_nat (length (f_edges m)))
   /\ (forall e, 0 <= e < Z.of_nat (length (f_edges m)) -> (In e (f_bedges m) <-> dot_of m e = None)).
 Proof.
   exact (fun m o W => conj (feature_edges_NoDup m o) (conj (feature_edges_range m o W) (fun e => wf_f_border m e W))).
+Qed.
+
+Lemma features_wf_thm : forall m o, wf_f m = true ->
+  NoDup (feature_edges m o)
+  /\ (forall e, In e (feature_edges m o) -> 0 <= e < Z.of_nat (length (f_edges m)))
+  /\ (forall e, 0 <= e < Z.of_nat (length (f_edges m)) -> (In e (f_bedges m) <-> dot_of m e = None)).
+Proof.
+  exact (fun m o W => features_wfF_thm m o (wf_f_wfF m W)).
 Qed.
 
 Lemma feature_vertices_thm : forall m o v,
@@ -130,6 +138,10 @@ Lemma local_feat_edges_thm : forall m o,
 Proof. exact (fun m o => conj (local_feat_edges_keys m o) (local_feat_edges_spec m o)). Qed.
 
 Lemma degree_is_local_count_thm : forall m o v, wf_f m = true -> 0 <= v < f_nV m ->
+  getd v (feature_degrees m o) = Z.of_nat (length (local_feat_edges_of m (feature_edges m o) v)).
+Proof. exact (fun m o v W Hv => degree_is_local_count m o v (wf_f_wfF m W) Hv (feature_edges_range m o (wf_f_wfF m W))). Qed.
+
+Lemma degree_is_local_count_wfF_thm : forall m o v, wfF m -> 0 <= v < f_nV m ->
   getd v (feature_degrees m o) = Z.of_nat (length (local_feat_edges_of m (feature_edges m o) v)).
 Proof. exact (fun m o v W Hv => degree_is_local_count m o v W Hv (feature_edges_range m o W)). Qed.
 
